@@ -250,3 +250,80 @@ def resync_step(ctx, chains, pairs, epochs=4, thorough=False, design=True):
     ctx.cov["resync_crashes"] = summary["stats"].get("crashes", 0)
     ctx.cov["resync_finalized_writes"] = summary["stats"].get("fin_writes", 0)
     ctx.cov["traces_validated_against_impl"] += summary["runs"] if accepted else 0
+
+
+def _steps_from_dump(path):
+    """honest/Byzantine votes in order, from a TLC -dumpTrace json counterexample of MC_BFTEpoch (diff of vt)."""
+    import re
+    d = json.load(open(path))
+    st = [x[1] for x in d["counterexample"]["state"]]
+    steps = []
+    for a, b in zip(st, st[1:]):
+        for node, row in b["vt"].items():
+            for v, bit in row.items():
+                if a["vt"][node][v] != bit:
+                    steps.append({"v": v, "c": [int(x) for x in re.findall(r"\d+", node)], "bit": bit})
+    return steps
+
+
+def epoch_step(ctx, thorough=False):
+    """Epoch-level safety (BFTEpoch.tla): the block-accurate model cannot reach two conflicting commits inside its
+    exhaustive bounds, this abstraction can.  (1) FinalitySafety exhaustively on small round trees; (2) five seeded
+    design errors of the vote / finalization rule must each break it - their counterexamples are vote orders in which
+    a WRONG rule finalizes conflicting checkpoints; (3) those vote orders, plus vote orders sampled from the correct
+    model, are driven through the REAL nodes (own ShouldVote via doPack, Byzantine validator filling rounds): no two
+    nodes may finalize conflicting checkpoints, every event is judged by Trace_BFT.tla, and for the correct model's
+    orders the COM bit of every honest block must be the model's."""
+    cfgs = ["MC_BFTEpoch_quick.cfg"] + (["MC_BFTEpoch_pos.cfg", "MC_BFTEpoch_y3.cfg", "MC_BFTEpoch_i3.cfg", "MC_BFTEpoch_root.cfg"] if thorough else [])
+    for cfg in cfgs:
+        ctx.tlc_must_hold("bft", "MC_BFTEpoch", cfg=cfg, timeout=7200 if thorough else 1200, heap="8g",
+                          label="epoch-level FinalitySafety " + cfg)
+    sched = ctx.tmp("epoch-sched")
+    variants = ["castq", "norule", "dropcasts", "finq", "geq"] if thorough else ["castq", "norule", "dropcasts"]
+    for v in variants:
+        dump = os.path.join(sched, "cex_%s.json" % v)
+        r = ctx.tlc("bft", "MC_BFTEpoch", cfg="MC_BFTEpoch_teeth_%s.cfg" % v, timeout=900, workers=4, count=False,
+                    extra=["-dumpTrace", "json", dump], label="seeded design error " + v)
+        if r.invariant != "FinalitySafety" or not os.path.exists(dump):
+            raise Infra("seeded design error %s of BFTEpoch.tla did not break FinalitySafety (%s)" % (v, r.invariant or r.error or "no violation"))
+        json.dump({"variant": v, "steps": _steps_from_dump(dump)}, open(os.path.join(sched, "sched_cex_%s.json" % v), "w"))
+    # vote orders of the correct model
+    r = ctx.tlc("bft", "MC_BFTEpochSim", cfg="MC_BFTEpochSim_asis.cfg", workers=1, simulate="num=%d" % (400 if thorough else 12), depth=11,
+                timeout=900, label="vote orders for replay", count=False)
+    if r.invariant or r.error or r.timeout:
+        raise Infra("epoch schedule export failed: %s\n%s" % (r.invariant or r.error or "timeout", r.out[-1500:]))
+    n = 0
+    for f in sorted(os.listdir(r.workdir)):
+        if f.startswith("sched_") and f.endswith(".json"):
+            shutil.copy(os.path.join(r.workdir, f), os.path.join(sched, "sched_asis_%s" % f[6:]))
+            n += 1
+    binp = ctx.build("bftsim")
+    out = ctx.tmp("epoch-replay")
+    rc, o = ctx.run([binp, "-epochsched", sched, "-out", out, "-seed", str(ctx.seed)], timeout=1800)
+    if rc == 3:
+        raise Infra("bftsim harness error: " + o[-1500:])
+    if rc != 0:
+        if rc is not None and "panic:" in o:
+            rp = ctx.save_replay("panic-epochsched-%d.txt" % ctx.seed, o[-20000:])
+            ctx.report("panic:epoch-schedule", "real code panicked while replaying an epoch-level vote order: %s" % o.strip().splitlines()[:2], rp)
+            return
+        raise Infra("bftsim -epochsched failed rc=%s: %s" % (rc, o[-2000:]))
+    summary = json.loads(o.strip().splitlines()[-1])
+    notes = summary.get("notes") or []
+    stats = json.load(open(os.path.join(out, "runs.json")))
+    events = read_ndjson(os.path.join(out, "trace.ndjson"))
+    before = len(ctx.violations) + len(ctx.known_hit)
+    for nt in [x for x in notes if "FINALITY-CONFLICT" in x]:
+        rp = ctx.save_replay("epoch-finality-conflict-%d.json" % ctx.seed, {"note": nt, "schedules": sched, "summary": summary})
+        shutil.copytree(sched, os.path.join(ctx.replaydir, "epoch-sched-%d" % ctx.seed), dirs_exist_ok=True)
+        ctx.report("finality-conflict:epoch-schedule", "real nodes finalized conflicting checkpoints: " + nt, rp)
+        break
+    validate_events(ctx, events, stats, "epoch-schedules", dict(epochsched=True, seed=ctx.seed))
+    disagree = [x for x in notes if "SPEC-DISAGREE" in x]
+    if disagree and len(ctx.violations) + len(ctx.known_hit) == before:
+        raise Infra("BFTEpoch.tla and the real engine (as accepted by Trace_BFT.tla) disagree - specification drift: %s" % disagree[:3])
+    ctx.cov["epoch_schedules_replayed"] = summary["runs"]
+    ctx.cov["epoch_schedules_from_seeded_design_errors"] = len(variants)
+    ctx.cov["epoch_schedules_cut"] = len([x for x in notes if "schedule cut" in x])
+    ctx.cov["epoch_votes_refused_by_finality"] = len([x for x in notes if "refused by its finality" in x])
+    return stats
